@@ -111,6 +111,10 @@ type Decoder struct {
 	// saveBuf is previous data passed to Write which we weren't able
 	// to fully parse before. Unlike buf, we own this data.
 	saveBuf bytes.Buffer
+
+	// sawField is whether a header field representation has been
+	// processed in the current header block (reset by Close).
+	sawField bool
 }
 
 // NewDecoder returns a new decoder with the provided maximum dynamic
@@ -301,6 +305,7 @@ func (d *Decoder) DecodeFull(p []byte) ([]HeaderField, error) {
 }
 
 func (d *Decoder) Close() error {
+	d.sawField = false
 	if d.saveBuf.Len() > 0 {
 		d.saveBuf.Reset()
 		return DecodingError{errors.New("truncated headers")}
@@ -374,21 +379,25 @@ func (d *Decoder) parseHeaderFieldRepr() error {
 		// Indexed representation.
 		// High bit set?
 		// http://http2.github.io/http2-spec/compression.html#rfc.section.6.1
+		d.sawField = true
 		return d.parseFieldIndexed()
 	case b&192 == 64:
 		// 6.2.1 Literal Header Field with Incremental Indexing
 		// 0b10xxxxxx: top two bits are 10
 		// http://http2.github.io/http2-spec/compression.html#rfc.section.6.2.1
+		d.sawField = true
 		return d.parseFieldLiteral(6, indexedTrue)
 	case b&240 == 0:
 		// 6.2.2 Literal Header Field without Indexing
 		// 0b0000xxxx: top four bits are 0000
 		// http://http2.github.io/http2-spec/compression.html#rfc.section.6.2.2
+		d.sawField = true
 		return d.parseFieldLiteral(4, indexedFalse)
 	case b&240 == 16:
 		// 6.2.3 Literal Header Field never Indexed
 		// 0b0001xxxx: top four bits are 0001
 		// http://http2.github.io/http2-spec/compression.html#rfc.section.6.2.3
+		d.sawField = true
 		return d.parseFieldLiteral(4, indexedNever)
 	case b&224 == 32:
 		// 6.3 Dynamic Table Size Update
@@ -464,6 +473,11 @@ func (d *Decoder) callEmit(hf HeaderField) error {
 
 // (same invariants and behavior as parseHeaderFieldRepr)
 func (d *Decoder) parseDynamicTableSizeUpdate() error {
+	// RFC 7541, sec 4.2: dynamic table size updates (there may be more
+	// than one) MUST occur at the beginning of a header block.
+	if d.sawField {
+		return DecodingError{errors.New("dynamic table size update MUST occur at the beginning of a header block")}
+	}
 	buf := d.buf
 	size, buf, err := readVarInt(5, buf)
 	if err != nil {
